@@ -143,4 +143,66 @@ CLAIMS.update({
     technique="Lean 4 proof (wpD postcondition + path injectivity) + differential correspondence against hashlib"),
 })
 
+CLAIMS.update({
+ "C09": dict(
+    text="Theorems (Props/C09): removing a key only ever aims at the index area (content untouched in healthy run, at every "
+         "kill point, under every fault), appends exactly one tombstone, after which that key - and only that key - is not "
+         "found, and buckets of other keys are not touched; remove_hash aims one mutating call at exactly that content "
+         "path and on success it is absent; remove_fully aims only at the current entry's content path and the key's "
+         "bucket; clearing removes everything below each child and stays inside the cache. Correspondence: histories mixing "
+         "writes with all four removals over shared-content keys, judged by a dictionary model and the Lean model.",
+    note=TB + "remove_fully of a key whose bucket also holds another key's records (SHA-1 collision or foreign writer) "
+         "removes those too - the stated exception; the order in which clear removes children is readdir order (not modelled).",
+    technique="Lean 4 proof (AllCalls frame analysis + index algebra) + differential correspondence"),
+ "C11": dict(
+    text="Theorems (Props/C11): the record of a successful keyed write classifies to exactly the supplied fields; a lookup "
+         "of the bucket such a write leaves returns key, integrity, explicit timestamp, size (declared, else byte count), "
+         "JSON metadata (else null) and raw metadata verbatim; the default timestamp is the clock call's answer; the "
+         "record text lists the six fields in fixed order. Correspondence: type-directed JSON, 64-bit integer edges, "
+         "control/non-ASCII strings, 128-bit times, all byte values as raw metadata, through every write entry point and "
+         "both flavours, field-by-field monitor; nesting depths around serde_json's limit (known finding F9).",
+    note=TB + "the JSON half of 'returned exactly' (dec (enc r) = some r for the serde/SHA-256 codec) is the hypothesis "
+         "Codec.Laws, validated against serde_json itself by ~45k differential cases of the JSON model and by this "
+         "correspondence; decimals are exercised by the JSON differential test only.",
+    technique="Lean 4 proof (record classification + index algebra; codec round trip as hypothesis) + differential correspondence"),
+ "C12": dict(
+    text="Theorems (Props/C12): in the model, lookups, reads, extractions, removals, listing and index insertion have no "
+         "flavour parameter at all; for the writers (the only flavour-dependent programs) both flavours return the same "
+         "integrity whenever both answer ok (under any faults), leave the same record in the bucket and keep the store "
+         "valid at every kill point. Tie: every program executed as all-sync, all-async, sync-then-async and async-then-sync "
+         "on the async-std AND the tokio binary (8 executions), canonical result streams equal step by step.",
+    note=TB + "the three real builds are related to the one model by three correspondences; that is where the claim gets "
+         "its content. Error KINDS under injected faults may differ between flavours (async close reports the later "
+         "existence check's error) - outside the statement's 'success/error classification' only in the io sub-kind.",
+    technique="Lean 4 proof (flavour-free postconditions) + 8-way differential execution"),
+ "C17": dict(
+    text="Theorems (Props/C17): the path and record layout stated literally (index-v5/<sha1 hex 2/2/rest>, "
+         "content-v2/<algo>/<hex 2/2/rest>, newline + hex sha256 + tab + six-field JSON; tombstone = null integrity); "
+         "bucket and content path maps are injective up to digest equality; index, content and temp areas are disjoint; "
+         "decoding a bucket of framed records yields exactly those records. The Lean driver and lib/vf/layout.py are two "
+         "independent implementations of the format, exercised in both directions against the library.",
+    note=TB + "decode(encode) uses Codec.Laws (see C11); XXH3 paths are exercised through the library only.",
+    technique="Lean 4 proof (format definitions + injectivity) + two independent implementations, both directions"),
+ "C19": dict(
+    text="Theorems (Props/C19): every mutating call of a link commit is aimed inside the cache (a target outside is never a "
+         "target of any call, under any faults); the link text is the absolute path of the target as seen from the calling "
+         "process; the commit issues no call that could copy data into the cache; reads through a link are verified like "
+         "any read (C01) whatever the target holds now; reading follows the link; a wrong declared size is rejected. "
+         "Correspondence: absolute/relative targets, partial reads before commit, wrong declarations, pre-existing "
+         "content, target modified/removed afterwards.",
+    note=TB + "symlink resolution is modelled for links at the final path component; the process working directory is the "
+         "scratch root in both harness and model.",
+    technique="Lean 4 proof (AllCalls analysis + run semantics) + differential correspondence"),
+ "C20": dict(
+    text="Theorems (Props/C20): the Rust panics that exist are explicit results in the model; lookup, index insert/remove "
+         "and listing never produce one whatever the files hold; every operation taking an integrity argument is panic-free "
+         "for well-formed arguments whatever the filesystem answers; writers are panic-free for every option/chunk "
+         "combination (zero length, several chunks for a declared size, more/fewer bytes than declared) given digests of "
+         ">= 2 bytes; reads by key are panic-free when the record's integrity is a usable address. All model functions are "
+         "total. Tie: every call of every stream runs under catch_unwind + a 60 s watchdog; hostile on-disk states.",
+    note=TB + "known finding F13 (foreign record with undecodable digest) is exactly the excluded case of read_no_panic; "
+         "aborts (allocation failure, stack overflow) and runtime dead-locks are visible to the watchdog only.",
+    technique="Lean 4 proof (panic results excluded over all call answers; totality) + panic catcher and watchdog on every call"),
+})
+
 PENDING = {}
